@@ -53,7 +53,8 @@ def run(ctx):
     attach(r4, td, only={'todo:schedule-only-after-qmail-clean-confirmed', 'todo:nothing-removed-after-files-are-being-written'})
     attach(r4, dst, only={'ds:slot-taken-with-counter-and-reference'})
     attach(r4, dd, only={'del:slot-freed-only-after-job_close'})
-    r4.expect_min(6)
+    attach(r4, qsend.analyse_pqadd(db, rep), prefixes=['pqadd:'])
+    r4.expect_min(8)
 
     r5 = rep.rule('C04.5-TERM', 'R-GUARD', 'after TERM nothing new is started: the scanners return at once when flagexitasap; the loop ends only when no delivery is in flight; retry times are saved')
     for nm in ('pass_dochan', 'todo_do', 'todo_selprep', 'pass_selprep'):
